@@ -29,12 +29,14 @@ def obligations(tier):
                     desc='__cds_wfcq_splice_nonblocking, __cds_wfcq_first_nonblocking, __cds_wfcq_next_nonblocking return without waiting, enqueuers suspended anywhere')
     obs += progress('nb_wfs_pop', 'c11_stack.c', ['p1', 'p2', 'c1'], R, ['c1'], cflags=['-DKIND=0', '-DSCEN=1', '-DPOP=1'] + WF,
                     desc='__cds_wfs_pop_nonblocking x2 returns without waiting, pushers suspended anywhere')
+    obs += progress('nb_wfs_first_next', 'c11_stack.c', ['p1', 'p2', 'c1'], R, ['c1'], cflags=['-DKIND=0', '-DSCEN=9', '-DPOP=0'] + WF,
+                    desc='__cds_wfs_pop_all, cds_wfs_first, cds_wfs_next_nonblocking x3 return without waiting, pushers suspended between head exchange and next-pointer store')
     return obs
 
 
 EXPLANATION = 'C17: progress guarantees (wait-free / lock-free / non-blocking never wait on suspended threads)'
 OUTSIDE = 'prefixes longer than R rounds; hash-table and rculfqueue operations and read-side lock/unlock are covered by obligations named lf_lfq_*, wf_read_* , lf_lfht_* when present in this tier'
-ASSUMPTIONS = ['waiting = executing a busy-wait hint (rep;nop / poll) or blocking in a primitive; an operation that loops forever without a hint would show up as non-completion within the per-turn unwinding bound']
+ASSUMPTIONS = ['waiting = executing a busy-wait hint (rep;nop / poll) or blocking in a primitive; a loop of the tested operation that iterates more often than the unwinding bound inside one uninterrupted turn is reported (unwinding assertion restricted to the tested thread) and confirmed by a native run that does not terminate']
 LEVEL_TEXT = ('Bounded model checking: a symbolic prefix of R rounds suspends every thread at an arbitrary instruction; then only the operation under test runs; assert completion and '
               '(wait-free / non-blocking) that no busy-wait hint or blocking primitive was ever executed by it.')
 LEVEL_NOTE = 'Trusted: clang-14 lowering, irseq translator, asm table, scheduler runtime, CBMC/MiniSat.'
